@@ -53,7 +53,10 @@ Verdict(r) ==
   IF r.preanom # <<>> THEN <<"tainted">> ELSE
   LET pre == FromJ(r.pre) IN
   IF ~Integrity(pre) \/ ~SCInv(pre) THEN <<"tainted">>
-  ELSE IF SCUnspecified(pre, r.op) THEN <<"unspecified">>
+  \* outside the documented domain the outcome is open, the invariants of every reachable state are not
+  \* ("whether each call returns or raises")
+  ELSE IF SCUnspecified(pre, r.op) THEN
+    (IF r.postanom = <<>> /\ StateClauses(FromJ(r.post)) # <<>> THEN StateClauses(FromJ(r.post)) ELSE <<"unspecified">>)
   ELSE IF r.postanom # <<>> THEN <<"C03:anomaly." \o r.postanom[1]>>
   ELSE
     LET post == FromJ(r.post)
